@@ -72,7 +72,11 @@ impl ValueStack {
     /// Returns Nil if the stack is empty
     #[inline]
     pub fn pop(&mut self) -> Value {
-        let count = self.count.saturating_sub(1);
+        // an empty stack pops nil: slot 0 may still hold a value that `pop_n` or `clear_until`
+        // left behind
+        let Some(count) = self.count.checked_sub(1) else {
+            return Value::Nil;
+        };
         let value = self.data[count];
         self.count = count;
         self.data[self.count] = Value::Nil;
